@@ -287,17 +287,27 @@ def run(ctx, rep):
                 if err_t is None:
                     continue
                 sides += 1
-                region = m.reachable(err_t, removed_blocks=[sb]) - m.reachable(ok_t, removed_blocks=[sb])
-                vals = []
-                for x in sorted(region):
-                    if m.blocks[x].cleanup:
+                # the first value given to the result on every path that starts on the failed-search side
+                vals, seen_b, stack = [], set(), [err_t]
+                while stack:
+                    x = stack.pop()
+                    if x in seen_b or m.blocks[x].cleanup:
                         continue
+                    seen_b.add(x)
+                    got = None
                     for s2 in m.blocks[x].stmts:
                         if s2.kind == "assign" and s2.lhs.local in result_locals and not s2.lhs.proj and s2.rv is not None:
-                            vals.append("Ok" if s2.rv.kind == "aggregate" and str(s2.rv.agg.get("variant", "")) == "Ok" else "other")
+                            got = "Ok" if s2.rv.kind == "aggregate" and str(s2.rv.agg.get("variant", "")) == "Ok" else "other"
+                            break
                     t2 = m.blocks[x].term
-                    if t2.kind == "call" and t2.dest is not None and t2.dest.local in result_locals and not t2.dest.proj:
-                        vals.append("other")
+                    if got is None and t2.kind == "call" and t2.dest is not None and t2.dest.local in result_locals and not t2.dest.proj:
+                        got = "other"
+                    if got is not None:
+                        vals.append(got)
+                        continue
+                    if t2.kind == "return":
+                        vals.append("none")
+                    stack.extend(m.succ(x))
                 if not vals or set(vals) != {"Ok"}:
                     bad.append((m.blocks[sb].term.line, vals))
         adder(rep, b)("R39h", "%s deserialize_mmember: a member that is not found is not an error (it keeps its default)" % ver, bool(seeks) and sides >= 1 and not bad,
